@@ -27,18 +27,25 @@ pub fn special(r: &mut Rng) -> f64 {
 pub fn solver_cases(lm: &LinearModel, tags: &[String], stream: &str, out: &mut Vec<Case>) {
     let lms = sx::lin_model(lm);
     let opts = Opts::default();
-    let raw_milp = child::solve(SolverKind::RawMilp, lm, &opts, TIMEOUT);
+    // once one call on this model has hung, the remaining calls get a short limit (these models solve in microseconds)
+    let hung = std::cell::Cell::new(false);
+    let call = |k: SolverKind| {
+        let o = child::solve(k, lm, &opts, if hung.get() { Duration::from_millis(400) } else { TIMEOUT });
+        if matches!(o, Outcome::Hang) { hung.set(true); }
+        o
+    };
+    let raw_milp = call(SolverKind::RawMilp);
     let cont = gen_lp::is_continuous(lm);
     for kind in SolverKind::ENTRY_POINTS {
-        let o = child::solve(kind, lm, &opts, TIMEOUT);
+        let o = call(kind);
         let mut c = Case::default();
         let res = gen_lp::result(&o);
         c.imp = res.clone();
         c.req = match kind {
             SolverKind::Milp => gen_lp::mlp(&raw_milp).map(|r| format!("milp-wrap {} {}", lms, r)),
             SolverKind::Auto => gen_lp::mlp(&raw_milp).map(|r| format!("auto-wrap {} {}", lms, r)),
-            SolverKind::MicroLp => gen_lp::mlp(&child::solve(SolverKind::RawMicroLp, lm, &opts, TIMEOUT)).map(|r| format!("microlp-wrap {} {}", lms, r)),
-            SolverKind::Clarabel => gen_lp::clarabel(&child::solve(SolverKind::RawClarabel, lm, &opts, TIMEOUT)).map(|r| format!("clarabel-wrap {} {}", lms, r)),
+            SolverKind::MicroLp => gen_lp::mlp(&call(SolverKind::RawMicroLp)).map(|r| format!("microlp-wrap {} {}", lms, r)),
+            SolverKind::Clarabel => gen_lp::clarabel(&call(SolverKind::RawClarabel)).map(|r| format!("clarabel-wrap {} {}", lms, r)),
             _ => None,
         }.unwrap_or_default();
         if matches!(o, Outcome::Hang) { c.req.clear(); }
